@@ -131,7 +131,7 @@ def random_trace(adapter, rnd, nkeys, vals, cap, length, ops_weighted, scripted=
     def do(op):
         try:
             ret = graphwalk.guarded(lambda: adapter.apply(w, op), 2.0)
-            st = graphwalk.safe_obs(adapter, w)
+            st = graphwalk.guarded(lambda: graphwalk.safe_obs(adapter, w), 2.0)
         except (graphwalk.Timeout, Unexpected) as e:
             tr.append({"op": op, "ret": None, "st": None, "exc": type(e).__name__ + ":" + str(e)})
             return False
@@ -153,7 +153,10 @@ def random_trace(adapter, rnd, nkeys, vals, cap, length, ops_weighted, scripted=
         elif name == "eq":
             ks = sorted(rnd.sample(range(1, nkeys + 1), rnd.randint(0, min(cap, nkeys))))
             if rnd.random() < 0.5 and w["c"] is not None:
-                st = adapter.obs(w)
+                try:
+                    st = graphwalk.guarded(lambda: adapter.obs(w), 2.0)
+                except Exception:       # noqa - a broken object: the next recorded operation will show it
+                    st = {"order": [], "keys": [], "vals": []}
                 ps = [[kk, vv] for kk, vv in zip(st.get("order", st.get("keys")), st["vals"])]
                 rnd.shuffle(ps)
             else:
